@@ -266,3 +266,12 @@ def rule_inventory(ctx):
 
 
 RULES.append(("C14.h", "state-mutation inventory: no new site that changes the content of the state this property rests on", rule_inventory))
+
+
+
+def rule_awaits(ctx):
+    from . import inventory
+    inventory.check_awaits(ctx, ['nexosim/src/ports/output/broadcaster.rs', 'nexosim/src/ports/source/broadcaster.rs', 'nexosim/src/ports/output.rs', 'nexosim/src/ports/source.rs', 'nexosim/src/ports/output/sender.rs', 'nexosim/src/ports/source/sender.rs'])
+
+
+RULES.append(("C14.i", "await inventory: only futures whose completion rule is covered are polled on the delivery path", rule_awaits))
